@@ -851,8 +851,10 @@ class MessageManager(ClientLike):
         for i, (sock, module) in enumerate(self.modules.items()):
             # if sock == self.listen_socket:
             #     continue
-            msg.client_mod_id[i] = module.mod_id
-            msg.client_pid[i] = module.pid
+            # ACTIVE_CLIENTS only has room for MAX_ACTIVE_CLIENTS entries
+            if i < cd.MAX_ACTIVE_CLIENTS:
+                msg.client_mod_id[i] = module.mod_id
+                msg.client_pid[i] = module.pid
             self.send_client_info(module)
 
         msg.num_clients = len(self.modules) - 1
